@@ -41,6 +41,11 @@ DEC_SIMPLE = [(D, 'ber.decoder::IntegerPayloadDecoder.valueDecoder[complete]'),
               (D, 'ber.decoder::NullPayloadDecoder.valueDecoder[complete]'),
               (D, 'ber.decoder::BooleanPayloadDecoder._createComponent'),
               (D, 'ber.decoder::RawPayloadDecoder.indefLenValueDecoder')]
+DEC_REGIONS = [(D, 'ber.decoder::SingleItemDecoder.__call__@stDecodeLength[complete]'),
+               (D, 'ber.decoder::SingleItemDecoder.__call__@stDecodeLength[partial]'),
+               (D, 'ber.decoder::SingleItemDecoder.__call__@stDecodeTag[outermost,complete]'),
+               (D, 'ber.decoder::SingleItemDecoder.__call__@stDecodeTag[inner,complete]'),
+               (D, 'ber.decoder::SingleItemDecoder.__call__@stDecodeTag[outermost,partial]')]
 U2 = 'shared universe U2 (quick: ~800 (type, value) pairs; thorough: full leaf product x tag stacks)'
 PAPER_INDUCTION = ('structural induction over the type universe (dynamic dispatch through TAG_MAP/TYPE_MAP and the '
                    'univ.py object model): premises are the per-function obligations and the dispatch-table '
@@ -61,7 +66,7 @@ PROPS['C01'] = prop(
                'the INTEGER/BOOLEAN/NULL payload decoders are proved for all inputs against X.690 spec functions; the '
                'round trip over the type universe composes them on paper; decode(encode(v, mode), T) == v is a labelled '
                'bounded stand-in over U2 x 8 encoder modes.',
-    contracts=ENC_FRAMING + INTS + DEC_SIMPLE + READS[:1], tables=['dispatch'],
+    contracts=ENC_FRAMING + INTS + DEC_SIMPLE + DEC_REGIONS + READS[:1], tables=['dispatch'],
     standins=[dict(module='standins.codec_checks', checks='rt-ber', bound=U2 + ' x 8 modes (def/indef x chunk 0,1,3,7,1000)')],
     explanation='contracts on framing + content leaf functions (proved), dispatch tables (complete evaluation), '
                 'round trip on entry points (bounded)')
@@ -70,7 +75,7 @@ PROPS['C02'] = prop(
     level_text='Same premises as C01 with the fixed CER/DER modes; decoder tables of cer/der are proved (by complete '
                'evaluation) to differ from BER only by stricter codecs, so whenever several decoders accept they run '
                'the same content decoders; the five (encoder, decoder) pairs are a bounded stand-in over U2.',
-    contracts=ENC_FRAMING + INTS + DEC_SIMPLE, tables=['dispatch', 'decoder-tables'],
+    contracts=ENC_FRAMING + INTS + DEC_SIMPLE + DEC_REGIONS, tables=['dispatch', 'decoder-tables'],
     standins=[dict(module='standins.codec_checks', checks='rt-canon', bound=U2 + ' incl. strings of 999/1000/1001/2001 octets')],
     explanation='contracts (proved) + finite tables (complete) + five codec pairs (bounded)')
 
@@ -91,7 +96,7 @@ PROPS['C05'] = prop(
                'inputs), the result value is the last item yielded (D5), the caching wrapper refines a seekable stream '
                '(C11 contracts). Schedule independence then follows by the stutter meta-lemma (paper). All partitions '
                'of short two-object streams are a bounded stand-in.',
-    contracts=READS + WRAPPER + DEC_SIMPLE, tables=['protocol', 'errors'],
+    contracts=READS + WRAPPER + DEC_SIMPLE + DEC_REGIONS, tables=['protocol', 'errors'],
     standins=[dict(module='standins.stream_checks', checks='schedules',
                    bound='220 (type, value) pairs, encodings of <= 7 (quick) / 9 (thorough) octets doubled, all '
                          '2^(n-1) partitions up to 4096 (quick) / 70000, non-seekable source with None polls')],
@@ -116,7 +121,7 @@ PROPS['C07'] = prop(
                'octets (readFromStream), end-of-stream test is non-destructive, payload decoders consume exactly '
                '`length` octets, explicit-tag unwrapping yields its value last. decode(e + t) == (v, t) and stream '
                'positions after each object are bounded stand-ins.',
-    contracts=ENC_FRAMING + READS + DEC_SIMPLE, tables=['protocol'],
+    contracts=ENC_FRAMING + READS + DEC_SIMPLE + DEC_REGIONS, tables=['protocol'],
     standins=[dict(module='standins.codec_checks', checks='tails', bound=U2 + ' x 4 codecs/modes x 5 tails'),
               dict(module='standins.stream_checks', checks='concat', bound='220 pairs x 3 codecs x 1..3 concatenations')],
     explanation='framing and exact-consumption contracts (proved); tails and concatenations (bounded)')
@@ -126,7 +131,7 @@ PROPS['C09'] = prop(
                'payload decoders are proved against the spec relation; the remaining BER choice points (length forms, '
                'segmentation trees, SET order, DEFAULT presence) are exercised by a nondeterministic independent '
                'reference encoder as a bounded stand-in.',
-    contracts=INTS[2:] + DEC_SIMPLE[:4], tables=['dispatch'],
+    contracts=INTS[2:] + DEC_SIMPLE[:4] + DEC_REGIONS, tables=['dispatch'],
     standins=[dict(module='standins.codec_checks', checks='ber-forms', bound=U2 + ' x up to 60 systematically enumerated BER forms per value')],
     explanation='content decoders against the BER relation (proved); enumerated BER forms (bounded)')
 
@@ -148,7 +153,7 @@ PROPS['C13'] = prop(
                'base-128 digits), one header per tag from innermost to outermost with the constructed bit set for wrappers '
                'and constructed content only (iteration contract of encode). Tag algebra and accept/reject are covered by a '
                'bounded stand-in until their contracts are built.',
-    contracts=ENC_FRAMING, tables=['dispatch'],
+    contracts=ENC_FRAMING + DEC_REGIONS[2:], tables=['dispatch'],
     standins=[dict(module='standins.tag_checks', checks='tag-stacks', bound='depth 0..3 stacks over 3 classes x 9 numbers x implicit/explicit on 4 base types; single-position perturbations')],
     explanation='identifier/framing contracts (proved); tag stacks and perturbations (bounded)')
 
@@ -159,7 +164,7 @@ PROPS['C15'] = prop(
                'every unambiguous type; strict BOOLEAN; primitive-only BIT/OCTET STRING; supportIndefLength False and '
                'wired in; every nested element goes through the same single-item decoder). Non-canonical rewrites of U2 '
                'encodings are an additional bounded stand-in.',
-    contracts=[], tables=['decoder-tables'],
+    contracts=DEC_REGIONS[:2], tables=['decoder-tables'],
     standins=[dict(module='standins.codec_checks', checks='noncanonical', bound=U2 + ' DER encodings x every element x 3 rewrites x with/without spec')],
     paper=[], explanation='finite table obligations, complete evaluation')
 
